@@ -1,0 +1,21 @@
+//go:build verif
+
+package syntax
+
+// Verification hooks for property C06 (no behaviour of their own).
+//
+// VerifNextCount, VerifRuneCount and VerifLoopCount are incremented only by a
+// build-time instrumented copy of lexer.go/parser.go/parser_arithm.go that the
+// /verif C06 check generates from the current tree and passes to the compiler
+// with -overlay (one increment at the top of Parser.next, of Parser.rune, and
+// of every `for` body). In a build without the overlay they stay zero.
+var (
+	VerifNextCount int64
+	VerifRuneCount int64
+	VerifLoopCount int64
+)
+
+// VerifCountersReset zeroes the three counters.
+func VerifCountersReset() {
+	VerifNextCount, VerifRuneCount, VerifLoopCount = 0, 0, 0
+}
